@@ -18,6 +18,8 @@ def dispatch (focus : String) (c : Case) : String :=
   | "fit" => handleFit focus c
   | "fault" => handleFault focus c
   | "robust" => handleRobust focus c
+  | "conv" => handleConv focus c
+  | "mc" => handleMc focus c
   | "stats" => handleStats focus c
   | k => s!"corr=INTERNAL(unknown-kind-{k}) mon=ok nontrivial=0 tag=none"
 
